@@ -239,7 +239,7 @@ class Scenario(object):
     def attack_preauth(self):
         rng = self.rng
         k = rng.choice(["garbage", "no-nul", "long-line", "many-rejects", "begin-first", "binary-after-auth", "close-immediately",
-                        "half-auth-silence", "junk-commands"])
+                        "half-auth-silence", "junk-commands", "junk-commands", "junk-commands"])
         self.steps.append("preauth %s" % k)
         self.part.count("attack:preauth")
         s = socket.socket(socket.AF_UNIX, socket.SOCK_STREAM)
@@ -263,8 +263,20 @@ class Scenario(object):
             elif k == "half-auth-silence":
                 s.sendall(b"\0AUTH EXTERN")
             elif k == "junk-commands":
-                s.sendall(b"\0" + b"".join(rng.choice([b"DATA zz\r\n", b"ERROR\r\n", b"CANCEL\r\n", b"\xff\xfe\r\n", b"NEGOTIATE_UNIX_FD\r\n",
-                                                         b"AUTH\r\n", b"AUTH EXTERNAL 31\r\n", b"DATA\r\n"]) for _ in range(30)))
+                pool = [b"DATA zz\r\n", b"ERROR\r\n", b"CANCEL\r\n", b"\xff\xfe\r\n", b"NEGOTIATE_UNIX_FD\r\n", b"AUTH\r\n",
+                        b"AUTH EXTERNAL 31\r\n", b"DATA\r\n", b"AUTH EXTERNAL\r\n", b"AUTH DBUS_COOKIE_SHA1\r\n",
+                        b"AUTH DBUS_COOKIE_SHA1 726f6f74\r\n", b"AUTH ANONYMOUS\r\n", b"DATA 30\r\n", b"DATA 3\r\n", b"DATA 31 32\r\n",
+                        b"DATA " + b"61" * 40 + b"\r\n", b"AUTH EXTERNAL zz\r\n", b"BEGIN\r\n", b"DATA \n\r\n", b"AUTH  \r\n"]
+                lines = []
+                for _ in range(rng.randint(3, 12)):
+                    # themed runs: a mechanism opened without initial response followed by several DATA variants
+                    if rng.random() < 0.5:
+                        lines.append(rng.choice([b"AUTH EXTERNAL\r\n", b"AUTH DBUS_COOKIE_SHA1\r\n", b"AUTH DBUS_COOKIE_SHA1 726f6f74\r\n"]))
+                        for _ in range(rng.randint(1, 4)):
+                            lines.append(rng.choice([p for p in pool if p.startswith(b"DATA")]))
+                    else:
+                        lines.append(rng.choice(pool))
+                s.sendall(b"\0" + b"".join(lines))
         except OSError:
             pass
         self.bystander_roundtrip("pre-auth abuse (%s)" % k)
@@ -443,6 +455,16 @@ def _run_one(b, rundir, seed, shard, i, part, skip):
             sc.run()
             part.evaluations += len(sc.steps)
             part.count("scenarios")
+            return sc
+        except wire.Invalid as e:
+            # a bystander received bytes from the bus that do not decode as a valid message
+            sc.violation("invalid-message-relayed:%s" % str(e.reason).split("(")[-1].split(",")[1].strip(" '") if "Result(" in str(e.reason) else "invalid-message-relayed",
+                         "the bus sent a frame to a well-behaved client that is not a valid message: %s" % e.reason)
+            try:
+                sc.finish()
+            except Exception:
+                pass
+            part.evaluations += len(sc.steps)
             return sc
         except (client.Timeout, client.Closed) as e:
             alive = sc.daemon.alive() if getattr(sc, "daemon", None) else False
